@@ -224,7 +224,11 @@ class ManageSieveConnection:
             return Response(Condition.NO, text='Invalid SASL mechanism.')
         responses: list[ChallengeResponse] = []
         if cmd.initial_data is not None:
-            resp_dec = b64decode(cmd.initial_data)
+            try:
+                resp_dec = b64decode(cmd.initial_data, validate=True)
+            except binascii.Error:
+                return Response(Condition.NO, text='Invalid authentication '
+                                                   'response.')
             responses.append(ChallengeResponse(b'', resp_dec))
         while True:
             try:
@@ -241,7 +245,7 @@ class ManageSieveConnection:
                     raise AuthenticationError('Authentication cancelled.') \
                         from None
                 try:
-                    resp_dec = b64decode(resp_str.value)
+                    resp_dec = b64decode(resp_str.value, validate=True)
                 except binascii.Error as exc:
                     raise AuthenticationError() from exc
                 else:
